@@ -7,6 +7,7 @@ SCOPES = {
     "E1": dict(MaxT=2, MaxU=1, MaxI=1, shards=8),      # 16 681 configurations
     "E1b": dict(MaxT=2, MaxU=2, MaxI=1, shards=12),    # adds two-uses chains (cycles via uses)
     "E2": dict(MaxT=3, MaxU=2, MaxI=1, shards=16),     # 1 302 000 configurations
+    "E2s": dict(MaxT=3, MaxU=2, MaxI=1, shards=64, run_shards=8),   # a deterministic eighth of E2 (~160 000 configurations)
     "N3": dict(MaxT=3, MaxU=1, MaxI=1, shards=2, chain=True),   # three nesting levels a, a/a, a/a/a: 1 600 configurations
     "N3b": dict(MaxT=3, MaxU=2, MaxI=1, shards=8, chain=True),  # ... with two uses entries: 31 240 configurations
 }
@@ -34,8 +35,8 @@ def targets_cfg(scope, shard, emit=True, laws=True):
 
 def mc_targets(chk, scope, laws=True):
     """Enumerate every configuration of the scope in TLC, check the laws, return the cases."""
-    n = SCOPES[scope]["shards"]
-    jobs = [dict(module="mc/MCTargets", cfg_text=targets_cfg(scope, i, True, laws), workers=1, timeout=1800, xmx="3g")
+    n = SCOPES[scope].get("run_shards", SCOPES[scope]["shards"])
+    jobs = [dict(module="mc/MCTargets", cfg_text=targets_cfg(scope, i, True, laws), workers=1, timeout=3000, xmx="3g")
             for i in range(n)]
     results = vlib.tlc_parallel(jobs, max_parallel=min(n, vlib.NCPU))
     cases = []
@@ -192,6 +193,11 @@ def run(pid, tier):
         cases = mc_targets(chk, scope)
         # plus every configuration over the three-level nesting chain
         cases += mc_targets(chk, "N3" if tier == "quick" else "N3b")
+        extra_cases = []
+        if tier == "thorough" and kind != "groups":
+            # three targets with two uses entries: a deterministic eighth of the 1.3 M configurations of scope E2,
+            # each under one naming scheme (rotating) and every declaration order
+            extra_cases = mc_targets(chk, "E2s")
         cases_path = os.path.join(tmp, "cases.ndjson")
         with open(cases_path, "w") as f:
             for c in cases:
@@ -204,6 +210,16 @@ def run(pid, tier):
                             "--seed", str(chk.seed), "--rotate", rotate])
         evals += st["evaluations"]
         records += read_records(os.path.join(tmp, "o1", kind + ".ndjson"))
+        if extra_cases:
+            ep = os.path.join(tmp, "cases2.ndjson")
+            with open(ep, "w") as f:
+                for c in extra_cases:
+                    f.write(json.dumps(c) + "\n")
+            st = vinproc(bins, ["cfgcases", "--cases", ep, "--out", os.path.join(tmp, "o1b"), "--fixtures", os.path.join(tmp, "fxb"),
+                                "--kinds", kind, "--threads", str(vlib.NCPU), "--seed", str(chk.seed), "--rotate", "1"])
+            evals += st["evaluations"]
+            records += read_records(os.path.join(tmp, "o1b", kind + ".ndjson"))
+            cases = cases + extra_cases
         n_enum = len(records)
         # ---- independent randomized driver: large configurations
         count = 120 if tier == "quick" else 1200
